@@ -18,7 +18,7 @@ RULE = ('cases = TT tensors / TT matrices of order 1..6, f32/f64/c64/c128, obtai
         'storage ranges, and after an in-place resizing set_core on either of the two the other keeps its metadata, cores and dense value; the others have the same dense value (converted dtype for to()). distinct = (source, op, structure, dtype); all non-trivial.')
 ASSUMPTIONS = ['the unpickling policy is whatever the installed torch enforces (weights_only default) - that is the environment users have']
 REQUIRED_REACH = ['_extras:save', '_extras:load', '_tt_base:TT.clone', '_tt_base:TT.detach', '_tt_base:TT.cpu', '_tt_base:TT.to', '_tt_base:TT.numpy']
-REQUIRED_COUNTS = {'op:saveload': 1, 'op:clone': 1, 'clone_independence_histories': 20, 'op:detach': 1, 'op:cpu': 1, 'op:to': 1, 'op:numpy': 1, 'source:svd': 1, 'source:slice': 1, 'source:transpose': 1,
+REQUIRED_COUNTS = {'op:saveload': 1, 'op:clone': 1, 'clone_independence_histories': 20, 'copy_after_inplace_write_histories': 50, 'op:detach': 1, 'op:cpu': 1, 'op:to': 1, 'op:numpy': 1, 'source:svd': 1, 'source:slice': 1, 'source:transpose': 1,
                    'source:round': 1, 'source:buffer': 5, 'loaded_cores_bit_identical': 10}
 SOURCES = ['cores', 'svd', 'svd_ttm', 'slice', 'transpose', 'conj', 'round', 'sum', 'buffer', 'signed-zeros']
 OPS = ['saveload', 'clone', 'detach', 'detach_tracked', 'cpu', 'to', 'numpy']
@@ -230,6 +230,29 @@ def run_case(case, ctx):
         err = dn.fro(dn.to_up(yt).to(ref.dtype) - ref)
         if err > 1e3 * u * dn.s_rep(x):
             ctx.viol(key + '/clause=value', '%s: err %.3e' % (what, err))
+    # history for every copy operation: the caller updates a core tensor of the operand in place (an optimiser step); a copy made AFTERWARDS must show the
+    # new value (nothing may be remembered from the first call), and - for clone - the copy made BEFORE must not have moved
+    if op in ('numpy', 'clone', 'cpu', 'to', 'detach') and case['seed'] % 2 == 0 and not isinstance(y if op != 'saveload' else None, Raised):
+        rr = random.Random(case['seed'] + 23)
+        k = rr.randrange(len(x.cores))
+        if x.cores[k].is_floating_point() or x.cores[k].is_complex():
+            before = dn.D(y).clone() if (op == 'clone' and isinstance(y, torchtt.TT)) else None
+
+            def write(t, k=k):
+                with torch.no_grad():
+                    t.cores[k].mul_(-0.5).add_(0.25)
+            ctx.lib('core_write(in place)', write, x, inplace=(x,), resnap_all=True)
+            ref2 = dn.D(x)
+            fn = {'numpy': lambda t: t.numpy(), 'clone': lambda t: t.clone(), 'cpu': lambda t: t.cpu(), 'detach': lambda t: t.detach(),
+                  'to': lambda t: t.to(dtype=x.cores[0].dtype)}[op]
+            y2 = ctx.lib(op, fn, x)
+            ctx.count('copy_after_inplace_write_histories')
+            if not isinstance(y2, Raised):
+                got2 = torch.from_numpy(np.ascontiguousarray(y2)) if isinstance(y2, np.ndarray) else (dn.D(y2) if isinstance(y2, torchtt.TT) else None)
+                if got2 is None or list(got2.shape) != list(ref2.shape) or dn.fro(dn.to_up(got2).to(ref2.dtype) - ref2) > 1e3 * dn.ueps(x.cores[0].dtype) * dn.s_rep(x):
+                    ctx.viol(key + '/clause=stale-after-in-place-write', '%s: %s() called again after a core of the operand was updated in place does not show the new value' % (what, op))
+            if before is not None and not dn.bit_equal(dn.D(y), before):
+                ctx.viol(key + '/clause=clone-moved-with-operand', what)
     ctx.nontrivial((case['source'], op, _sig(x), case['to_dtype'] if op == 'to' else ''))
 
 
